@@ -125,6 +125,10 @@ func runC19(c *Ctx) {
 	// ---- R19f
 	c.Rule("R19f", "exclusion side effects only for matching resources: in the filter callbacks of excludeT/excludeV a write to a captured collection (the sets of indexes / foreign keys to drop with an excluded column) is reachable only through an edge that establishes the pattern matched", 1)
 	checkFilterCallbacks(c)
+
+	// ---- R19g
+	c.Rule("R19g", "a planner executes only the changes it was given: the modifyTable method of each dialect builds its statements from ModifyTable.Changes and never re-creates the table from ModifyTable.T (the desired table still contains the effect of every skipped change, so a CREATE TABLE made from it carries the skipped drops out)", 3)
+	checkNoRebuildFromDesired(c)
 }
 
 func nestedSummary(a *FlowAnalysis) string {
@@ -667,5 +671,91 @@ func checkFilterCallbacks(c *Ctx) {
 	}
 	if n == 0 {
 		c.Unresolved("R19f", "filter callbacks with captured-collection writes in excludeT/excludeV")
+	}
+}
+
+// checkNoRebuildFromDesired is R19g.
+func checkNoRebuildFromDesired(c *Ctx) {
+	for _, pp := range []string{pSqlite, pMysql, pPostgres} {
+		fi := c.Func("R19g", pp, "state", "modifyTable")
+		if fi == nil {
+			continue
+		}
+		info := fi.Info()
+		var modify types.Object
+		for _, fld := range fi.Decl.Type.Params.List {
+			if typeIs(derefType(info.TypeOf(fld.Type)), pSchema, "ModifyTable") && len(fld.Names) == 1 {
+				modify = info.ObjectOf(fld.Names[0])
+			}
+		}
+		if modify == nil {
+			c.Unresolved("R19g", fi.Name+": the *schema.ModifyTable parameter")
+			continue
+		}
+		// variables holding the desired table or a copy of it
+		isDesired := func(e ast.Expr) bool {
+			e = ast.Unparen(e)
+			if st, ok := e.(*ast.StarExpr); ok {
+				e = ast.Unparen(st.X)
+			}
+			se, ok := e.(*ast.SelectorExpr)
+			if !ok || se.Sel.Name != "T" {
+				return false
+			}
+			id, ok := ast.Unparen(se.X).(*ast.Ident)
+			return ok && info.ObjectOf(id) == modify
+		}
+		copies := map[types.Object]bool{}
+		ast.Inspect(fi.Decl.Body, func(m ast.Node) bool {
+			as, ok := m.(*ast.AssignStmt)
+			if !ok || len(as.Lhs) != len(as.Rhs) {
+				return true
+			}
+			for i, r := range as.Rhs {
+				if isDesired(r) {
+					if id, ok := as.Lhs[i].(*ast.Ident); ok {
+						copies[info.ObjectOf(id)] = true
+					}
+				}
+			}
+			return true
+		})
+		refers := func(e ast.Expr) bool {
+			hit := false
+			ast.Inspect(e, func(k ast.Node) bool {
+				if x, ok := k.(ast.Expr); ok && isDesired(x) {
+					hit = true
+				}
+				if id, ok := k.(*ast.Ident); ok && copies[info.ObjectOf(id)] {
+					hit = true
+				}
+				return !hit
+			})
+			return hit
+		}
+		bad := ""
+		var pos token.Pos = fi.Decl.Pos()
+		ast.Inspect(fi.Decl.Body, func(m ast.Node) bool {
+			switch x := m.(type) {
+			case *ast.CompositeLit:
+				if typeIs(info.TypeOf(x), pSchema, "AddTable") {
+					for _, el := range x.Elts {
+						if kv, ok := el.(*ast.KeyValueExpr); ok && refers(kv.Value) {
+							bad, pos = types.ExprString(x), x.Pos()
+						}
+					}
+				}
+			case *ast.CallExpr:
+				if fn := calleeOf(info, x); fn != nil && fn.Name() == "addTable" && fn.Pkg() != nil && fn.Pkg().Path() == pp {
+					for _, a := range x.Args {
+						if refers(a) {
+							bad, pos = types.ExprString(x), x.Pos()
+						}
+					}
+				}
+			}
+			return true
+		})
+		c.Check("R19g", shortPkg(pp)+".(state).modifyTable|table not re-created from ModifyTable.T", pos, bad == "", "%s re-creates the table from the desired state (%s): columns, indexes and constraints whose drop (or modification) was filtered out by the skip policy are not in ModifyTable.Changes but are missing from ModifyTable.T, so the rebuild drops them anyway", fi.Name, bad)
 	}
 }
